@@ -25,6 +25,7 @@ SHAPES = {
     "S5": [("a", []), ("g", [("b", []), ("c", [])])],
     "S4": [("g", [("h", [("a", []), ("b", [])]), ("c", [])]), ("d", [])],
     "S3": [("g", [("a", []), ("b", [])]), ("h", [("c", []), ("d", [])])],
+    "S6": [("g", [("h", [("a", []), ("b", [])]), ("k", [("c", []), ("d", [])])])],   # cousins two levels down (used by C15 and thorough)
 }
 EFFORT = {"a": 90, "b": 150, "c": 60, "d": 40}
 KG_Q = [("end", None), ("end", "90min"), ("end", "1d"), ("start", "30min")]
@@ -125,9 +126,9 @@ def _anc(parent, f):
 
 
 def universe(tier):
-    shapes = ["S1", "S2", "S5", "S4", "S3"]
+    shapes = ["S1", "S2", "S5", "S4", "S3"] + (["S6"] if tier != "quick" else [])
     for sk in shapes:
-        maxe = 2 if tier == "quick" else 3
+        maxe = 2 if tier == "quick" else (3 if sk != "S6" else 2)
         for edges in edge_sets(SHAPES[sk], maxe):
             for kg in (KG_Q if tier == "quick" else KG_T):
                 if not edges and kg != KG_Q[0]:
